@@ -10,10 +10,12 @@
    reload of the generated runs is recomputed by [reload_pool] and compared with the real pool inside Coq.
    All theorems quantify over ALL pools, definitions and database contents.
 
-   Two clauses of the text are FALSE of the code (and of the faithful model); they are stated in full, refuted by
+   "Dropped only if not started" is a theorem for all pools since /repo 9a9212a (before, a HELD orphan was
+   dropped even when submitted/running: the removal test was `waiting or is_held or is_queued`; the old
+   witness is kept as the regression Example [c27_ex_held_orphan_kept] and as a corpus case of the stream).
+
+   One clause of the text is FALSE of the code (and of the faithful model); it is stated in full, refuted by
    a witness, and proved in the restricted form:
-   - "dropped only if not started": an orphan that is HELD is dropped even when submitted/running
-     ([c27_orphans_refuted], restricted: [c27_orphans_unheld]);
    - "queued flag preserved": the reload itself clears is_queued of every task ([c27_queued_refuted]); the main
      loop re-queues the ready ones later in the same iteration ([c27_requeue_restores]) but a task that was
      queued and held stays un-queued ([c27_held_queued_lost_refuted]). *)
@@ -24,7 +26,7 @@ Import ListNotations.
 (* ------------------------------------------------------------------ which tasks are in the pool afterwards *)
 
 (* The pool after the reload consists, in the same order, of exactly the tasks that are not (orphaned and
-   (waiting or held or queued)); ids are unchanged and stay unique; nothing is added. *)
+   waiting); ids are unchanged and stay unique; nothing is added. *)
 Theorem c27_pool_after : forall d db pool,
   map p_id (reload_pool d db pool)
   = map p_id (filter (fun p => negb (orphan d p && removable p)) pool).
@@ -34,14 +36,13 @@ Theorem c27_pool_no_duplicates : forall d db pool,
   NoDup (map p_id pool) -> NoDup (map p_id (reload_pool d db pool)).
 Proof. exact reload_pool_NoDup. Qed.
 
-(* a task is dropped iff its definition was removed and it is waiting, held or queued *)
+(* a task is dropped iff its definition was removed and it is waiting *)
 Theorem c27_dropped_iff : forall d db pool p,
   NoDup (map p_id pool) -> In p pool ->
-  (~ In (p_id p) (map p_id (reload_pool d db pool)) <->
-   orphan d p = true /\ (p_status p = st_waiting \/ p_held p = true \/ p_queued p = true)).
+  (~ In (p_id p) (map p_id (reload_pool d db pool)) <-> orphan d p = true /\ p_status p = st_waiting).
 Proof.
   intros d db pool p ND H. rewrite (dropped_spec d db pool p ND H). unfold removable.
-  rewrite !orb_true_iff, N.eqb_eq. tauto.
+  rewrite N.eqb_eq. tauto.
 Qed.
 
 (* a task that is still defined is never dropped *)
@@ -142,46 +143,31 @@ Qed.
 
 (* ------------------------------------------------------------------ orphans *)
 
-(* the clause of the property text *)
-Definition c27_orphans_dropped_only_if_not_started (d : newdef) (db : dbrows) (pool : list proxy) : Prop :=
+(* the clause of the property text: a task is dropped only if it has not started (for all pools) *)
+Theorem c27_orphans_dropped_only_if_not_started : forall d db pool,
+  NoDup (map p_id pool) ->
   forall p, In p pool -> ~ In (p_id p) (map p_id (reload_pool d db pool)) -> started p = false.
+Proof.
+  intros d db pool ND p H C. apply (dropped_spec d db pool p ND H) in C.
+  apply (orphan_dropped_not_started d p). apply survives_spec; exact C.
+Qed.
 
-(* FALSE of the code: task 1/1 is submitted (status 4) and held, its definition is removed: it is dropped. *)
+(* the witness that refuted this clause before 9a9212a: task 1/1 is submitted (status 4) and held, its
+   definition is removed *)
 Definition c27_held_orphan : proxy := mkProxy (1, 1)%N 4%N [1%N] 1%N true false false false [0%N] [] false.
 
-Theorem c27_orphans_refuted : exists d db pool,
-  NoDup (map p_id pool) /\ ~ c27_orphans_dropped_only_if_not_started d db pool.
-Proof.
-  exists (mkDef [0; 1]%N [0%N] []), [], [c27_held_orphan]. split.
-  - repeat constructor; intros [].
-  - intros H. specialize (H c27_held_orphan (or_introl eq_refl)).
-    assert (C : started c27_held_orphan = false) by (apply H; vm_compute; intros []).
-    vm_compute in C. discriminate.
-Qed.
-
-(* true when no orphan is held (queued tasks are waiting: an invariant of the pool) *)
-Theorem c27_orphans_unheld : forall d db pool,
-  NoDup (map p_id pool) ->
-  (forall p, In p pool -> orphan d p = true -> p_held p = false) ->
-  (forall p, In p pool -> p_queued p = true -> p_status p = st_waiting) ->
-  c27_orphans_dropped_only_if_not_started d db pool.
-Proof.
-  intros d db pool ND Hh Hq p H C. apply (dropped_spec d db pool p ND H) in C.
-  apply (orphan_dropped_unheld d p); [apply survives_spec; exact C|apply Hh; tauto|apply Hq; exact H].
-Qed.
-
-(* a started, un-held orphan stays, unchanged except that it will not spawn children *)
+(* a started orphan stays (held or not), unchanged except that it will not spawn children *)
 Theorem c27_started_orphan_kept : forall d db pool p,
-  In p pool -> orphan d p = true -> started p = true -> p_held p = false -> p_queued p = false ->
+  In p pool -> orphan d p = true -> started p = true ->
   exists q, In q (reload_pool d db pool) /\ p_id q = p_id p /\ p_status q = p_status p /\
-            p_flows q = p_flows p /\ p_submit q = p_submit p /\ p_held q = false /\ p_queued q = false /\
+            p_flows q = p_flows p /\ p_submit q = p_submit p /\ p_held q = p_held p /\ p_queued q = p_queued p /\
             p_runahead q = p_runahead p /\ p_outputs q = p_outputs p /\ p_prereqs q = p_prereqs p /\
             p_cut q = true.
 Proof.
-  intros d db pool p H O S Hh Hq. exists (image d db p). split.
+  intros d db pool p H O S. exists (image d db p). split.
   - apply reload_pool_In. exists p. split; [exact H|split; [|reflexivity]].
-    unfold survives, removable. unfold started in S. apply negb_true_iff in S. rewrite O, S, Hh, Hq. reflexivity.
-  - unfold image. rewrite O. cbn. rewrite Hh, Hq. repeat split; reflexivity.
+    unfold survives, removable. unfold started in S. apply negb_true_iff in S. rewrite O, S. reflexivity.
+  - unfold image. rewrite O. cbn. repeat split; reflexivity.
 Qed.
 
 (* ------------------------------------------------------------------ unchanged definition, reloading twice *)
@@ -196,8 +182,8 @@ Theorem c27_unchanged_definition : forall d db pool,
 Proof. exact reload_same. Qed.
 
 (* Reloading the same definition again (whatever the database has become) changes nothing more, except that
-   the orphans kept by the first reload lose their (irrelevant) prerequisites: the second time they are no
-   longer recognised as orphans and are rebuilt from an empty implicit definition. *)
+   the orphans kept by the first reload lose their (irrelevant) prerequisites and queued flag: the second time
+   they are no longer recognised as orphans and are rebuilt from an empty implicit definition. *)
 Theorem c27_reload_twice : forall d db db' pool,
   wf_def d ->
   reload_pool (settled d) db' (reload_pool d db pool) = map (forget_undefined d) (reload_pool d db pool).
@@ -301,13 +287,18 @@ Proof.
   intros [<-|[]] [<-|[]] _ _. reflexivity.
 Qed.
 
-(* the hypotheses of the restricted orphan theorem hold of the example, and an orphan is indeed dropped *)
-Example c27_ex_orphans : c27_orphans_dropped_only_if_not_started ex_def ex_db ex_pool.
+(* regression: the held, submitted orphan is kept (it was dropped before 9a9212a) *)
+Example c27_ex_held_orphan_kept :
+  reload_pool (mkDef [0; 1]%N [0%N] []) [] [c27_held_orphan]
+  = [mkProxy (1, 1)%N 4%N [1%N] 1%N true false false false [0%N] [] true].
+Proof. vm_compute. reflexivity. Qed.
+
+(* an orphan is indeed dropped in the example, and it had not started *)
+Example c27_ex_orphans : forall p, In p ex_pool ->
+  ~ In (p_id p) (map p_id (reload_pool ex_def ex_db ex_pool)) -> started p = false.
 Proof.
-  apply c27_orphans_unheld.
-  - vm_compute. repeat constructor; cbn; intuition discriminate.
-  - intros p [<-|[<-|[<-|[<-|[]]]]] _; reflexivity.
-  - intros p [<-|[<-|[<-|[<-|[]]]]]; cbn; intros; try discriminate; reflexivity.
+  apply c27_orphans_dropped_only_if_not_started.
+  vm_compute. repeat constructor; cbn; intuition discriminate.
 Qed.
 
 Example c27_ex_dropped : ~ In (2, 1)%N (map p_id (reload_pool ex_def ex_db ex_pool)).
